@@ -71,6 +71,13 @@ template <typename PH> struct PolyTR {
     if (cert == CERT_BHRZ03) { BHRZ03_Certificate c(yp); return c.compare(zp); }
     return 99;
   }
+  // the same comparison through the certificate-vs-certificate overload
+  static int ppl_cert_compare_certs(int cert, const D& y, const D& z) {
+    const Polyhedron& yp = y; const Polyhedron& zp = z;
+    if (cert == CERT_H79) { H79_Certificate a(yp), b(zp); return a.compare(b); }
+    if (cert == CERT_BHRZ03) { BHRZ03_Certificate a(yp), b(zp); return a.compare(b); }
+    return 99;
+  }
   static std::vector<WOp<D> > ops(int) {
     std::vector<WOp<D> > v;
     { WOp<D> o; o.name = "H79_widening_assign"; o.cert = CERT_H79; o.call = [](D& x, const D& y, unsigned* tp) { x.H79_widening_assign(y, tp); };
